@@ -86,17 +86,10 @@ func (f *MakeArray) Call(s *slip.Scope, args slip.List, depth int) slip.Object {
 	elementType := slip.TrueSymbol
 	switch ta := args[0].(type) {
 	case slip.Fixnum:
-		if ta < 0 {
-			slip.TypePanic(s, depth, "dimensions", ta, "non-negative fixnum", "list of non-negative fixnums")
-		}
-		dims = []int{int(ta)}
+		dims = []int{getSizeArg(s, ta, "dimensions", depth)}
 	case slip.List:
 		for _, v := range ta {
-			if num, ok := v.(slip.Fixnum); ok && 0 <= num {
-				dims = append(dims, int(num))
-			} else {
-				slip.TypePanic(s, depth, "dimensions", args[0], "list of non-negative fixnums")
-			}
+			dims = append(dims, getSizeArg(s, v, "dimension", depth))
 		}
 	default:
 		slip.TypePanic(s, depth, "dimensions", ta, "fixnum", "list of non-negative fixnums")
